@@ -247,7 +247,7 @@ def shards(tier, seed):
     for mi in range(len(MNEMOS)):
         for syn in ('intel', 'att'):
             out.append(('tokens', syn, mi))
-    for i in range(8 if tier == 'quick' else 64):
+    for i in range(8 if tier == 'quick' else 160):
         out.append(('mutlines', i))
     return out
 
@@ -297,13 +297,13 @@ def run_shard(shard, tier, seed):
                 for b in toks:
                     for c in toks:
                         check_text(sh, '%s %s %s %s' % (mn, a, b, c), syn, cls='tok3:%s' % syn)
-        else:
-            rng = common.rng_for(seed, 'C10tok', syn, mi)
+        if True:
+            rng = common.rng_for(0, 'C10tok', syn, mi)       # fixed internal seed: see DESIGN.md 2/C10 (seed-independent key set)
             for _ in range(1500):
                 k = rng.randint(3, 7)
                 check_text(sh, mn + ' ' + ' '.join(rng.choice(toks) for _ in range(k)), syn, cls='tokN:%s' % syn)
     elif kind == 'mutlines':
-        rng = common.rng_for(seed, 'C10mut', shard[1])
+        rng = common.rng_for(0, 'C10mut', shard[1])          # fixed internal seeds; thorough runs a superset of the quick shards
         intel, att = seed_lines()
         try:
             sys.path.insert(0, common.REPO + '/tests')
@@ -315,7 +315,7 @@ def run_shard(shard, tier, seed):
             check_text(sh, l, 'intel', cls='wellformed:intel')
         for l in att:
             check_text(sh, l, 'att', cls='wellformed:att')
-        for _ in range(1500 if tier == 'quick' else 4000):
+        for _ in range(1500):
             if rng.random() < 0.55:
                 t = rng.choice(intel).split()
                 syn = 'intel'
